@@ -1,2 +1,2 @@
 #!/bin/sh
-cd /verif && exec python3-vt -m props.replay_c17 strlen0 gm2calc_mssmnofv_get_problems 0
+cd /verif && exec python3-vt -m props.replay_c17 strlen0 gm2calc_mssmnofv_get_problems 1610612736
